@@ -504,6 +504,30 @@ func c19Consistent(bin *c02Input) bool {
 	return true
 }
 
+// c19TotalOrder makes the window of a data request with Limit / Offset independent of how ties of its sort keys are
+// resolved: the answers of the exporting and the importing daemon are compared row by row, and rows with equal keys
+// arrive from the backends' goroutines in scheduling dependent order (seen once in a thorough run: `Sort:
+// host_acknowledged asc / Limit: 5 / Offset: 4` over two backends). The primary key and the backend are appended
+// as last sort keys.
+func c19TotalOrder(text string) string {
+	if !strings.Contains(text, "\nLimit:") && !strings.Contains(text, "\nOffset:") || strings.Contains(text, "\nStats:") {
+		return text
+	}
+	table := strings.TrimSpace(strings.TrimPrefix(strings.SplitN(text, "\n", 2)[0], "GET "))
+	keys := map[string][]string{"hosts": {"name"}, "services": {"host_name", "description"}, "comments": {"id"}, "downtimes": {"id"},
+		"hostgroups": {"name"}, "servicegroups": {"name"}, "contacts": {"name"}, "contactgroups": {"name"}, "commands": {"name"},
+		"timeperiods": {"name"}}[table]
+	if keys == nil {
+		return text
+	}
+	extra := ""
+	for _, k := range append(keys, "peer_key") {
+		extra += "Sort: " + k + " asc\n"
+	}
+
+	return strings.TrimRight(text, "\n") + "\n" + extra + "\n"
+}
+
 func c19Gen(r *vRand, hist map[string]int, tier string) *c19Input {
 	in := &c19Input{}
 	nb := 1 + r.intn(2)
@@ -536,7 +560,7 @@ func c19Gen(r *vRand, hist map[string]int, tier string) *c19Input {
 		tables: []string{"hosts", "hosts", "services", "services", "hostgroups", "servicegroups", "contacts", "contactgroups", "commands", "timeperiods", "comments", "downtimes", "status",
 			"hostsbygroup", "servicesbygroup", "servicesbyhostgroup"}}
 	for q := 0; q < 12; q++ {
-		in.Queries = append(in.Queries, gen.request())
+		in.Queries = append(in.Queries, c19TotalOrder(gen.request()))
 		in.Optimize = append(in.Optimize, r.chance(1, 2))
 	}
 	// a few fixed shapes: virtual columns that depend on other tables or on peer state
